@@ -1556,39 +1556,47 @@ def arm_cases(tier):
 
 
 def sim_validate(run, prop, cases, chunk, key_fn, extra_props=()):
-    """run the cases through the simulated emitters and validate the Sim events with TLC"""
-    scen = [{"id": i, "cases": c} for i, c in enumerate(_chunks(cases, chunk), 1)]
-    groups, order, _ = vlib.run_harness("sim", scen, "sim_" + prop, timeout=3000)
+    """run the cases through the simulated emitters and validate the Sim events with TLC; long case lists go through in
+    batches (driver run + validation per batch) so that neither the recorded events nor the TLC processes of the whole list
+    are in memory at once.  Returns the events of the first batch (for samples), the number of validated cases, unknown words"""
+    all_scen = [{"id": i, "cases": c} for i, c in enumerate(_chunks(cases, chunk), 1)]
     props = '{%s}' % ", ".join('"%s"' % p for p in (prop,) + tuple(extra_props) + ("ALL",))
     cfgp = tlc.make_cfg("Trace_Sim", {"Props": props}, "Trace_Sim_" + prop)
-    # parallel TLC processes over slices of the scenarios
     import concurrent.futures
-    nproc = 4 if len(scen) < 40 else 10
-    slices = [scen[i::nproc] for i in range(nproc)]
-    results = []
-
-    def one(k):
-        sl = slices[k]
-        return tlc.validate_traces("Trace_Sim", cfgp, [(sc["id"], groups.get(sc["id"], [])) for sc in sl], WORK,
-                                   "trace_sim_%s_%d" % (prop, k), timeout=3000)
-    with concurrent.futures.ThreadPoolExecutor(max_workers=nproc) as ex:
-        results = list(ex.map(one, range(nproc)))
+    BATCH = 120          # chunks per batch
     nev = 0
     unknown = 0
-    for tv in results:
-        run.states += tv["states"]
-        run.transitions += tv["transitions"]
-        unknown += sum(1 for l in tv.get("raw", {}).get("prints", []) if l.startswith('<<"UNKNOWN"'))
-        for sid in tv["ids"]:
-            evs = groups.get(sid, [])
-            reached, total = tv["progress"][sid]
-            nev += reached
-            run.traces += reached
-            if sid not in tv["accepted"]:
-                fe = evs[reached] if reached < len(evs) else None
-                run.violation(key_fn(fe), {"first_unmatched_event": fe, "scenario_id": sid, "case_index": reached + 1,
-                                           "note": "the remaining cases of this chunk were not examined; rerun after repair"})
-    return groups, nev, unknown
+    first_groups = None
+    for b0 in range(0, len(all_scen), BATCH):
+        scen = all_scen[b0:b0 + BATCH]
+        groups, order, _ = vlib.run_harness("sim", scen, "sim_" + prop, timeout=3000)
+        if first_groups is None:
+            first_groups = groups
+        # parallel TLC processes over slices of the scenarios
+        nproc = 4 if len(scen) < 40 else 10
+        slices = [scen[i::nproc] for i in range(nproc)]
+
+        def one(k, slices=slices, groups=groups):
+            sl = slices[k]
+            return tlc.validate_traces("Trace_Sim", cfgp, [(sc["id"], groups.get(sc["id"], [])) for sc in sl], WORK,
+                                       "trace_sim_%s_%d" % (prop, k), timeout=3000)
+        with concurrent.futures.ThreadPoolExecutor(max_workers=nproc) as ex:
+            results = list(ex.map(one, range(nproc)))
+        for tv in results:
+            run.states += tv["states"]
+            run.transitions += tv["transitions"]
+            unknown += sum(1 for l in tv.get("raw", {}).get("prints", []) if l.startswith('<<"UNKNOWN"'))
+            for sid in tv["ids"]:
+                evs = groups.get(sid, [])
+                reached, total = tv["progress"][sid]
+                nev += reached
+                run.traces += reached
+                if sid not in tv["accepted"]:
+                    fe = evs[reached] if reached < len(evs) else None
+                    run.violation(key_fn(fe), {"first_unmatched_event": fe, "scenario_id": sid, "case_index": reached + 1,
+                                               "note": "the remaining cases of this chunk were not examined; rerun after repair"})
+        del groups, results
+    return first_groups or {}, nev, unknown
 
 
 def a64_check(prop, tier):
